@@ -2,6 +2,7 @@ package main
 
 import (
 	"fmt"
+	"go/token"
 	"go/types"
 	"os"
 	"sort"
@@ -20,6 +21,9 @@ type Program struct {
 	Pkgs  []*packages.Package
 	SSA   *ssa.Program
 	Funcs map[string]*ssa.Function // by qualified name
+	// Frozen: package-level variables of the module that are written only by their
+	// package's initialisation and whose address does not escape.
+	Frozen map[*ssa.Global]bool
 }
 
 const modPath = "github.com/criyle/go-sandbox"
@@ -62,6 +66,7 @@ func LoadProgram(dir string) (*Program, error) {
 	for fn := range ssautil.AllFunctions(prog) {
 		p.Funcs[FuncName(fn)] = fn
 	}
+	p.computeFrozen()
 	return p, nil
 }
 
@@ -114,4 +119,105 @@ func (p *Program) FindFuncs(pat string) []*ssa.Function {
 	}
 	sort.Slice(out, func(i, j int) bool { return FuncName(out[i]) < FuncName(out[j]) })
 	return out
+}
+
+func isInitFunc(fn *ssa.Function) bool {
+	return fn.Name() == "init" || strings.HasPrefix(fn.Name(), "init#")
+}
+
+func (p *Program) computeFrozen() {
+	p.Frozen = map[*ssa.Global]bool{}
+	notFrozen := map[*ssa.Global]bool{}
+	var all []*ssa.Global
+	for _, pkg := range p.SSA.AllPackages() {
+		if !strings.HasPrefix(pkg.Pkg.Path(), modPath) {
+			continue
+		}
+		for _, m := range pkg.Members {
+			if g, ok := m.(*ssa.Global); ok {
+				all = append(all, g)
+			}
+		}
+	}
+	// a derived address is "read-only used" if it is only loaded from, indexed further, or
+	// converted to unsafe.Pointer (handed to the kernel)
+	var readOnly func(v ssa.Value, depth int) bool
+	readOnly = func(v ssa.Value, depth int) bool {
+		if depth > 6 {
+			return false
+		}
+		refs := v.Referrers()
+		if refs == nil {
+			return true
+		}
+		for _, r := range *refs {
+			switch r := r.(type) {
+			case *ssa.UnOp:
+				if r.Op != token.MUL {
+					return false
+				}
+			case *ssa.FieldAddr:
+				if !readOnly(r, depth+1) {
+					return false
+				}
+			case *ssa.IndexAddr:
+				if r.X != v || !readOnly(r, depth+1) {
+					return false
+				}
+			case *ssa.Convert:
+				// to unsafe.Pointer
+			case *ssa.DebugRef:
+			case *ssa.Store:
+				if r.Addr == v {
+					return false
+				}
+				return false // address stored somewhere: escapes
+			default:
+				return false
+			}
+		}
+		return true
+	}
+	for _, fn := range p.Funcs {
+		if fn.Pkg == nil && fn.Parent() == nil {
+			continue
+		}
+		for _, b := range fn.Blocks {
+			for _, ins := range b.Instrs {
+				for _, op := range ins.Operands(nil) {
+					g, ok := (*op).(*ssa.Global)
+					if !ok {
+						continue
+					}
+					inInit := isInitFunc(fn) && fn.Pkg == g.Pkg
+					switch r := ins.(type) {
+					case *ssa.Store:
+						if r.Addr == g && inInit {
+							continue
+						}
+						notFrozen[g] = true
+					case *ssa.UnOp:
+						if r.Op != token.MUL {
+							notFrozen[g] = true
+						}
+					case *ssa.FieldAddr, *ssa.IndexAddr:
+						if inInit {
+							continue
+						}
+						if !readOnly(ins.(ssa.Value), 0) {
+							notFrozen[g] = true
+						}
+					case *ssa.Convert, *ssa.DebugRef:
+					default:
+						notFrozen[g] = true
+					}
+				}
+			}
+		}
+	}
+	for _, g := range all {
+		if !notFrozen[g] {
+			p.Frozen[g] = true
+		}
+	}
 }
